@@ -181,7 +181,7 @@ impl PersistentStorage {
                 forall|i: int| 0 <= i < idx.len() ==> Self::owned_by(iter2.entries(), #[trigger] idx[i], tenant),   //#all_owned
                 forall|i: int| 0 <= i < idx.len() ==> (#[trigger] nodes@[i]).id.0 == decode_bytes::<StoredNode>(iter2.entries()[idx[i]].1).id,   //#all_decoded
             decreases iter2.entries().len() - iter2.pos(),
-//@after "if !key.starts_with(prefix.as_bytes())"
+//@before "nodes.push("
             proof {
                 let p = prefix.as_bytes_spec();
                 assert(key@.subrange(0, p.len() as int) =~= p);
@@ -218,7 +218,7 @@ impl PersistentStorage {
                 forall|i: int| 0 <= i < idx.len() ==> Self::owned_by(iter2.entries(), #[trigger] idx[i], tenant),   //#all_owned
                 forall|i: int| 0 <= i < idx.len() ==> (#[trigger] edges@[i]).id.0 == decode_bytes::<StoredEdge>(iter2.entries()[idx[i]].1).id,   //#all_decoded
             decreases iter2.entries().len() - iter2.pos(),
-//@after "if !key.starts_with(prefix.as_bytes())"
+//@before "edges.push("
             proof {
                 let p = prefix.as_bytes_spec();
                 assert(key@.subrange(0, p.len() as int) =~= p);
